@@ -102,6 +102,34 @@ val envelope_gaps_ok : bool -> z list -> params -> bool
 
 val check_envelope : params -> z -> z -> bool
 
+type kind =
+| KHello
+| KBye
+| KProbe
+| KResolve
+| KProbeMatches
+| KResolveMatches
+
+type pset =
+| PUnicast
+| PMulticast
+| POther of params
+
+val is_multicast_kind : kind -> bool
+
+val spec_pset : kind -> pset
+
+val pset_params : params -> params -> pset -> params
+
+type api_op =
+| OpPublish
+| OpClearService
+| OpClearLocal
+| OpClearRemote
+| OpSearch
+| OpFound
+| OpStop
+
 type known = z list
 
 val remember : nat -> known -> z -> known
@@ -111,7 +139,23 @@ val is_known : known -> z -> bool
 type ev =
 | EvOut of z
 | EvIn of z
+| EvOp of api_op
+| EvRestart
 
 val dstep : nat -> known -> ev -> known * bool
 
 val drun : nat -> known -> ev list -> known * bool list
+
+val unicast_params : params
+
+val multicast_params : params
+
+val impl_kind_pset : kind -> pset
+
+val kind_params : kind -> params
+
+val spec_params : kind -> params
+
+val kind_schedule_us : kind -> z -> z -> (z * z) list
+
+val kind_count_ok : kind -> bool
